@@ -119,6 +119,15 @@ def install_hooks():
     A.Match._c22_hooked = True
 
 
+def patient(fn, secs):
+    """`with_timeout`, but a wall-clock limit that fires on a loaded machine is no evidence: a Timeout is
+    confirmed once with a generous limit before it becomes an observation"""
+    r = with_timeout(fn, secs)
+    if isinstance(r, dict) and r.get("other") == "Timeout":
+        r = with_timeout(fn, 20)
+    return r
+
+
 def run_text(mm, text, ctx=False):
     """mm.model_from_str(text) with recording.  Returns (load outcome, parser or None, log)."""
     install_hooks()
@@ -560,7 +569,7 @@ class Prop(Check):
                     info["log"] = log
                 return info
 
-            info = with_timeout(lambda: one(t), 5)
+            info = patient(lambda: one(t), 5)
             if "load" not in info:
                 d["load"] = info
                 res["texts"].append(d)
@@ -578,7 +587,7 @@ class Prop(Check):
                 for (p, ins, kind) in vs:
                     t2 = t[:p] + ins + t[p:]
                     v = {"p": p, "ins": ins, "kind": kind, "text": t2}
-                    i2 = with_timeout(lambda: one(t2), 5)
+                    i2 = patient(lambda: one(t2), 5)
                     v["load"] = i2.get("load", i2)
                     v["bad"] = i2.get("bad")
                     v["parse"] = with_timeout(lambda: peg.real_parse(mm._parser_blueprint.clone(), t2, objs))
